@@ -56,6 +56,14 @@ CHECKS = {
          "catalogue of textbook graphs (napkin, front-door, Verma, ...; extended with two 5-6 node shapes after seeded changes were missed), and sampled 4-6 node ADMGs.",
          TRUST + "; trusted mathematics: soundness of ID (Shpitser & Pearl 2006, Thm 5) only for the reading of the shape layer; the bounded part trusts the exact SCM evaluator (y0vc/scm.py)",
          TECH + " (shape layer) + bounded exact-SCM evaluation of the estimand", "DESIGN.md §5 C01"),
+ "C03": ("other", "Proved for all graphs and conditional queries (thorough tier; VC generation of idc takes minutes, so the quick tier uses its contract as stated): IDC is total -- "
+         "on a valid query over an acyclic graph the only exception is Unidentifiable; every call of the rule-2 test, every exchange of an observation for an action, the recursive "
+         "call and the final ID call satisfy their preconditions (KeyError / NodeNotFound from the separation test, ValueError from the exchange and NetworkXError from the surgery are "
+         "unreachable). rule_2_of_do_calculus_applies: exception freedom proved; that its verdict is m-separation of every outcome from z given X | (Z - z) in G with edges into X and "
+         "out of z removed is stated as a contract over are_d_separated's contract (undecided: closure equalities) and left to the bounded stand-in. The value clause (estimand = "
+         "P(Y,Z|do X)/P(Z|do X)) is decided by the bounded stand-in: exact SCM evaluation on every ADMG with 2-3 nodes x every conditional query, textbook graphs, sampled 4-6 node ADMGs.",
+         TRUST + "; assumed contracts: are_d_separated (C04), identify (C02), normalize_marginalize (C13, bounded); trusted mathematics: Shpitser & Pearl 2006b Thm 6-7",
+         TECH + " (totality) + bounded exact-SCM evaluation", "DESIGN.md §5 C03"),
 }
 NA = {
 }
